@@ -187,7 +187,14 @@ class Cache:
 
             # For union, visible columns must match (validated in verb function)
             # Hidden columns: are removed (we don't keep names for them and it is unlike they match in uuid)
-            res.cols = {uid: col for uid, col in self.cols.items() if uid in self.uuid_to_name}
+            # The type of a column of the union is the common type of the two columns (and
+            # it is not constant, even if both inputs are).
+            res.cols = {}
+            for uid, name in self.uuid_to_name.items():
+                col = self.cols[uid]
+                right_col = right_cache.cols[right_cache.name_to_uuid[name]]
+                dtype = types.lca_type([types.without_const(col.dtype()), types.without_const(right_col.dtype())])
+                res.cols[uid] = Col(col.name, col._ast, uid, dtype, Ftype.ELEMENT_WISE)
             # Visible columns should match, so we keep left table's name_to_uuid
             # (right table's visible columns are the same by validation)
             res.name_to_uuid = self.name_to_uuid.copy()
